@@ -29,15 +29,17 @@ def run_case(c):
     B = copy.deepcopy(c['B']) if c.get('B') is not None else None
     snapA, snapB = copy.deepcopy(A), copy.deepcopy(B)
     idsA, idsB = ids(A), (ids(B) if B is not None else None)
+    names = copy.deepcopy(c.get('names'))
+    snap_names = copy.deepcopy(names)
     out = io.StringIO()
     w = C.CSVWriter(out, False, None, c['dlm'], c['pol'])
     reg = None if B is None else EN.Registry(B, None)
     err = None
     try:
-        rbql.query(c['q'], E.TableIterator(A), w, [], reg)
+        rbql.query(c['q'], E.TableIterator(A, names), w, [], reg)
     except Exception as e:
         err = EN.canon_error(e)
-    ok = A == snapA and ids(A) == idsA
+    ok = A == snapA and ids(A) == idsA and names == snap_names
     if B is not None:
         ok = ok and B == snapB and ids(B) == idsB
-    return {'sources_ok': bool(ok), 'error': err, 'out': out.getvalue(), 'A_after': EN.canon_row(A) if not ok else None}
+    return {'sources_ok': bool(ok), 'error': err, 'out': out.getvalue(), 'A_after': EN.canon_row(A) if not ok else None, 'names_after': names if not ok else None}
